@@ -76,6 +76,17 @@ TEXT = {
         "level_text": "bounded: every written sample state has all moving units advanced to the sample time and the sample time is a multiple of the interval; checked on every committed event of every runnable shipped configuration up to the stated bound",
         "level_note": "this is a bounded check (4000 events per configuration in quick, 40000 in thorough), not a proof; deductive obligations for the functions behind this property are listed in DESIGN.md as work in progress",
     },
+    "C03": {
+        "technique": "contract-based deductive verification (model R): contracts on the derivative routines of the closed-form potentials "
+                     "(Python and the C 1/r bound) against spec derivatives, z3/cvc5 with uninterpreted pow/sqrt/acos/sin + listed axioms; "
+                     "spec derivatives tied to the spec energies by sympy; native counterexample search",
+        "level_text": "InversePower (incl. derivative(): linear in speed, unique direction), DisplacedEvenPower, Lennard-Jones (sum of two "
+                      "inverse-power contracts), Bending (three per-unit derivatives, sum identically zero) and the C 1/r bound are verified "
+                      "for all separations, directions, charges and parameters; the Ewald lattice-sum clauses (convergence, alpha-independence, "
+                      "periodicity) are NOT decided by this check",
+        "level_note": "level other: the merged-image (Ewald) C code is not under contract; model R (machine arithmetic treated as mathematical); "
+                      "real-analysis axioms for pow/sqrt, acos/sin uninterpreted; constructors (use **kwargs) out of reach: object invariants are preconditions; sympy trusted",
+    },
 }
 
 NOT_APPLICABLE = {
